@@ -113,6 +113,8 @@ impl CellBuffer {
         settings: &Settings,
     ) -> (Node<MSG>, f32, f32) {
         let (w, h) = self.get_size(settings);
+        #[cfg(feature = "verif")]
+        crate::verif::point("node:legend");
 
         let legend_css = self.legend_css();
         let (group_nodes, fragments) = self.group_nodes_and_fragments(settings);
@@ -235,6 +237,8 @@ impl CellBuffer {
     ) -> (Vec<Node<MSG>>, Vec<FragmentSpan>) {
         let escaped_text_nodes = self.escaped_text_nodes();
         let Endorse { accepted, rejects } = self.endorse_to_fragment_spans();
+        #[cfg(feature = "verif")]
+        crate::verif::point("node:groups");
 
         // grouped fragments will be rendered as svg groups
         let group_nodes: Vec<Node<MSG>> = rejects
@@ -390,6 +394,8 @@ impl CellBuffer {
         w: f32,
         h: f32,
     ) -> Node<MSG> {
+        #[cfg(feature = "verif")]
+        crate::verif::point("node:tree");
         let fragments_scaled: Vec<FragmentSpan> = fragments
             .into_iter()
             .map(|frag| frag.scale(settings.scale))
@@ -626,6 +632,8 @@ impl From<StringBuffer> for CellBuffer {
 
         let mut buffer = CellBuffer::new();
         for (y, line) in sb.iter().enumerate() {
+            #[cfg(feature = "verif")]
+            crate::verif::point("cellbuffer:row");
             let line_str = String::from_iter(line);
             let (escaped_text, unescaped) = Self::escape_line(y, &line_str);
             buffer.escaped_text.extend(escaped_text);
@@ -647,6 +655,8 @@ impl From<StringBuffer> for CellBuffer {
 /// current cell tested
 impl From<&CellBuffer> for Vec<Span> {
     fn from(cb: &CellBuffer) -> Vec<Span> {
+        #[cfg(feature = "verif")]
+        crate::verif::point("spans:group");
         let spans: Vec<Span> =
             cb.iter().map(|(cell, ch)| Span::new(*cell, *ch)).collect();
         Span::merge_recursive(spans)
